@@ -22,21 +22,21 @@ import (
 
 // Cmd is one line of the probe protocol (stdin, ndjson).
 type Cmd struct {
-	Cmd       string             `json:"cmd"` // schema | exec | quit
-	ID        string             `json:"id"`
-	Query     string             `json:"query"`
-	OpName    string             `json:"opname"`
-	Vars      map[string]any     `json:"vars"`
-	Plan      map[string]Outcome `json:"plan"`
-	DirPlan   map[string]string  `json:"dirplan"`
-	Sched     string             `json:"sched"`
-	Order     []string           `json:"order"`
-	QuietUs   int                `json:"quiet_us"`
-	CancelAt  int                `json:"cancel_at"`
-	Mode      string             `json:"mode"` // "" drain all payloads | "one" take the first payload and leave
-	LeakCheck bool               `json:"leak_check"`
-	TimeoutMs int                `json:"timeout_ms"`
-	Introspect bool              `json:"introspect"`
+	Cmd        string             `json:"cmd"` // schema | exec | quit
+	ID         string             `json:"id"`
+	Query      string             `json:"query"`
+	OpName     string             `json:"opname"`
+	Vars       map[string]any     `json:"vars"`
+	Plan       map[string]Outcome `json:"plan"`
+	DirPlan    map[string]string  `json:"dirplan"`
+	Sched      string             `json:"sched"`
+	Order      []string           `json:"order"`
+	QuietUs    int                `json:"quiet_us"`
+	CancelAt   int                `json:"cancel_at"`
+	Mode       string             `json:"mode"` // "" drain all payloads | "one" take the first payload and leave
+	LeakCheck  bool               `json:"leak_check"`
+	TimeoutMs  int                `json:"timeout_ms"`
+	Introspect bool               `json:"introspect"`
 }
 
 type ErrP struct {
@@ -246,8 +246,8 @@ func (p *Probe) Exec(c *Cmd) *Result {
 
 type introspectOn struct{}
 
-func (introspectOn) ExtensionName() string                        { return "VerifIntrospection" }
-func (introspectOn) Validate(graphql.ExecutableSchema) error      { return nil }
+func (introspectOn) ExtensionName() string                   { return "VerifIntrospection" }
+func (introspectOn) Validate(graphql.ExecutableSchema) error { return nil }
 func (introspectOn) MutateOperationContext(ctx context.Context, rc *graphql.OperationContext) *gqlerror.Error {
 	rc.DisableIntrospection = false
 	return nil
